@@ -114,3 +114,27 @@ func verifH_C07_reject() {
 	verifAssert(err != nil, "malformed-text-rejected")
 	_ = got
 }
+
+// A decoded key is a value: unchanged by a later decode, sharing no memory with package state.
+//
+//verif:harness prop=C07 name=value
+//verif:cases quick n=5,10
+//verif:cases thorough n=1,5,10,20,50
+//verif:opt unwind=2000 maxpaths=400
+func verifH_C07_value() {
+	n := verifCase("n")
+	a, b := verifBytes("a", n), verifBytes("b", n)
+	verifPrefer(a[0] != b[0])
+	ga, ea := DecodeSecret(verifEnc32(a))
+	gb, eb := DecodeSecret(verifEnc32(b))
+	verifObserve("gb", gb)
+	verifAssert(ea == nil && eb == nil, "decodes")
+	if ea != nil || eb != nil {
+		return
+	}
+	verifAssertBytesEq(ga, a, "first-key-unchanged-by-a-later-decode")
+	verifAssertBytesEq(gb, b, "second-key-is-its-own")
+	if verifSymbolic() {
+		verifAssert(verifResultOwned(ga) && verifResultOwned(gb), "decoded-key-shares-no-memory-with-pools-or-package-state")
+	}
+}
